@@ -104,6 +104,25 @@ CHECKS = {
         "inside/outside/look-alike/subdomain are replayed against a dictionary model; the Cookie header of every request must equal the model's.",
         "Trusted: CookieModel; same cookie name under two covering domains is don't-care (not judged, counted).",
     ),
+    "C03": (
+        "fault_enumeration",
+        "exhaustive enumeration of cut subsets inside header windows and of timeout positions + Hypothesis cut/timeout sets; metamorphic relation against the StreamModel trace of the unsegmented stream",
+        "Every subset of cut positions inside a 12-byte (16 in thorough) window over the headers of 14 short streams (7/16/64-bit "
+        "lengths, mask keys, handshake/frame seam via connect()) is enumerated, a receive timeout is injected at every byte "
+        "position of the first 48 bytes in three flavours, and Hypothesis adds arbitrary streams/partitions/timeout multisets. "
+        "The trace with timeouts erased must equal the model's; each timeout must surface once as WebSocketTimeoutException and leave the connection state untouched.",
+        "Trusted: StreamModel; scripted transport never returns bytes across a segment boundary; timeouts during connect() belong to C09.",
+    ),
+    "C17": (
+        "exploration",
+        "grammar-mutation fuzzing with Hypothesis + exhaustive short inputs (+ coverage-guided atheris campaign in the thorough tier); oracle = exception-type whitelist, transport read-size bound, deterministic progress budgets, reference decode of consumed bytes",
+        "connect() and the recv* drivers are fed mutated and raw server bytes (status-line pieces, colon-less and non-UTF-8 headers, "
+        "bad Content-Length, redirects without/with garbage Location, Set-Cookie shapes, oversized declared lengths, truncation, EOF or silence). "
+        "Any exception outside the documented hierarchy / transport errors, any transport read larger than 16384, any exhausted "
+        "transport-call or line-step budget, and any returned value that disagrees with the reference decode is a violation bucketed by (type, innermost frame).",
+        "Trusted: refmodel decoder, lenient reference response reader; default configuration only; frames after a close frame are not judged; "
+        "a status token that only Python's int() reads as 101 is don't-care.",
+    ),
 }
 
 PENDING_REASON = "check not built yet in this work-in-progress commit (will be claimed once its generator/oracle is committed)"
